@@ -149,6 +149,34 @@ Proof.
 Qed.
 Print Assumptions C34_bsave_bload.
 
+(* the BLOAD statement: an explicitly given offset - including 0 - is the offset used (in the segment recorded in
+   the file); only an omitted offset falls back to the recorded one; the load then is the POKE sequence there *)
+Theorem C34_bload_target : forall hseg hoff off,
+  bload_target hseg hoff (Some off) = hseg * 16 + off /\ bload_target hseg hoff None = hseg * 16 + hoff.
+Proof. intros. split; reflexivity. Qed.
+Print Assumptions C34_bload_target.
+
+Theorem C34_bload_stmt : forall m st f o, wf_mode m = true ->
+  let a := match o with Some off => mf_seg f * 16 + off | None => mf_seg f * 16 + mf_off f end in
+  state_eq (bload_stmt m st f o) (pokes m st a (firstn (Z.to_nat (vmem_set_video_len a)) (mf_data f))).
+Proof.
+  intros m st f o W. unfold bload_stmt.
+  replace (bload_target (mf_seg f) (mf_off f) o)
+    with (match o with Some off => mf_seg f * 16 + off | None => mf_seg f * 16 + mf_off f end)
+    by (destruct o; reflexivity).
+  cbv zeta. unfold set_block. apply set_memory_pokes. exact W.
+Qed.
+Print Assumptions C34_bload_stmt.
+
+(* what BSAVE wrote, loaded back with BLOAD "f",0 lands at offset 0 of the segment, not where it came from *)
+Example C34_bload_offset_zero :
+  let m := vmode_320x200x4 262144 in let st := init_state 3 4 in
+  let f := bsave_stmt m st 47104 8292 24 in
+  let st' := bload_stmt m st f (Some 0) in
+  peeks m st' 753664 24 = mf_data f /\ peeks m st' (753664 + 8292) 24 = mf_data f /\
+  peeks m st 753664 24 <> mf_data f.
+Proof. vm_compute. repeat split; try reflexivity. discriminate. Qed.
+
 (* ---- non-vacuity *)
 Example C34_nonvacuous :
   let m := vmode_320x200x4 262144 in
